@@ -1365,7 +1365,8 @@ def shortest_int(data: np.ndarray, percent: float=50) -> tuple[float, float]:
 
         data = np.sort(data)
         lag = int(len(data) * percent/100)
-        diff = diff_lag(data, lag)
+        # sorted signed integers: the difference of their unsigned images is the true width (the signed one wraps around beyond the dtype's maximum)
+        diff = diff_lag(data.view(f'u{data.dtype.itemsize}') if data.dtype.kind == 'i' else data, lag)
         i = np.where(diff == np.min(diff))[0]
         i = i[len(i)//2]  # middle one of the tied shortest intervals (the mean of tied indices need not be one of them)
         return np.array((data[i], data[i + lag]))
